@@ -11,5 +11,5 @@ if s.count(old) < 1:
     print('pattern not found'); sys.exit(1)
 open(p, 'w').write(s.replace(old, new, 1))
 PY
-VERIF_REPO=$WT /verif/check "$4" --tier "${5:-quick}" 2>&1 | grep -v conda | grep -E "VIOLATION|OK tier|MACHINERY|KNOWN|clause=" | head -5
+VERIF_REPO=$WT /verif/check "$4" --tier "${5:-quick}" 2>&1 | grep -v conda | grep -E "VIOLATION|OK tier|MACHINERY|KNOWN|clause=|DISAGREEMENT|EXTRAS:" | head -5
 git -C /repo worktree remove --force $WT
